@@ -37,6 +37,8 @@ PIPES: Dict[str, List[str]] = {
     "keyword-only": ["src", "kwmul3", "kwtwo_cfg", "kwgainprobe"],
     # data-dependent branches of generated context processors: the keys are present with the value None (rename / delete then only warn)
     "context-none": ["src", "ren_r_factor", "del_a", "muldef"],
+    # beyond the small scope: every run puts fresh containers of 40 items into the context (a sweep's <var>_values, a sliced probe's list)
+    "wide-values": ["sweep_src40", "slice_mul3", "slice_probe", "sum", "muldef"],
 }
 PIPE_CTX: Dict[str, Dict[str, Any]] = {"context-key-bound": {"x_values": [0.0, 1.0, 2.0], "y_values": [1.0, 3.0, 7.0]}, "keyword-only": {"factor": 5.0}, "context-none": {"r": None, "a": None}}
 WAYS = ["reused-pipeline", "fresh-pipelines", "cli-launch", "queue-worker", "reused-pipeline-traced", "fresh-pipelines-traced", "cli-launch-traced"]
@@ -210,7 +212,7 @@ def _worker(chunk):
 
 def check(tier: str, seed: int) -> Result:
     n = 150 if tier == "quick" else 450
-    pipes = list(PIPES) if tier == "thorough" else ["plain-op", "context-processors", "slicers", "sweep-op", "payload-source-sink", "failing", "context-key-bound", "context-none"]
+    pipes = list(PIPES) if tier == "thorough" else ["plain-op", "context-processors", "slicers", "sweep-op", "payload-source-sink", "failing", "context-key-bound", "context-none", "wide-values"]
     traced_pipes = {"plain-op", "context-processors", "failing", "sweep-op"}
     jobs = [(p, w, n) for p in pipes for w in WAYS if not (p == "failing" and w.startswith("cli-launch")) and not (w.endswith("-traced") and p not in traced_pipes)]
     jobs = core.seeded_order(jobs, seed)
